@@ -1,7 +1,8 @@
 import MosdnsVerif.Driver.Handler
 import MosdnsVerif.Model.C15
 
-/-! Model driver of C15: `reply ...` lines go to the shared handler driver; `life <chain> <tx> ...` lines run
+/-! Model driver of C15: `reply ...` lines go to the shared handler driver (`replyx ...`: the same with VERSION / extended-rcode byte of the
+client's OPT); `life <chain> <tx> ...` lines run
 successive client transactions over one cache entry (`Model.C15.transact` with the regenerated facts, `genCode`);
 `fork <mode> <query> <adopted branch> <discarded branches>` lines run one transaction through a plugin that runs
 sub-queries on copies of the context (`Model.C15.fork`). -/
@@ -29,11 +30,15 @@ def plugin? (s : String) : Option Plugin :=
     if own == "-" then pure (.ecs fw none) else pure (.ecs fw (some (← own.toNat?)))
   | _ => none
 
-/-- `-` or `<size>:<do>:<opts>` -/
+/-- `-`, `<size>:<do>:<opts>` or `<size>:<do>:<opts>:<version>:<ext-rcode byte>:<z>` (the Z bits are not part of the
+model's OPT) -/
 def copt? (s : String) : Option (List RR) :=
   if s == "-" then some [] else
   match s.splitOn ":" with
   | [size, d, os] => do pure [.opt { udpSize := ← size.toNat?, doBit := ← Hex.bool? d, options := ← opts? os }]
+  | [size, d, os, ver, ext, z] => do
+    let _ ← z.toNat?
+    pure [.opt { udpSize := ← size.toNat?, doBit := ← Hex.bool? d, extRcode := ← ext.toNat?, version := ← ver.toNat?, options := ← opts? os }]
   | _ => none
 
 /-- `err`, `none`, `a:<rcode>:<nAns>:<-|o=<opts>>:<glue>` -/
@@ -96,7 +101,31 @@ def mode? (s : String) : Option Adopt :=
   | "lazy" => some (.lazy { id := 0, qr := true, question := [⟨[97], 1, 1⟩], answer := [.rr [97] 1 300 0] })
   | _ => none
 
+/-- the header fields of the client's OPT record(s) -/
+def withHdr (ver ext : Nat) : RR → RR
+  | .opt o => .opt { o with version := ver, extRcode := ext }
+  | r => r
+
+/-- `replyx <version> <ext-rcode byte> <z> <udp> <id> ... <extras> <entry>`: a `reply` line of the shared handler driver
+whose client OPT has these header fields -/
+def replyx : List String → String
+  | [ver, ext, z, _udp, id, qr, opc, rd, cd, nq, name, qt, qc, na, nn, ex, en] =>
+    match ver.toNat?, ext.toNat?, z.toNat?, id.toNat?, Hex.bool? qr, opc.toNat?, Hex.bool? rd, Hex.bool? cd, nq.toNat?, Hex.decode name,
+          qt.toNat?, qc.toNat?, na.toNat?, nn.toNat?, Driver.Handler.extras? ex, Driver.Handler.entry? en with
+    | some ver, some ext, some _, some id, some qr, some opc, some rd, some cd, some nq, some name, some qt, some qc, some na, some nn,
+      some ex, some en =>
+      let q : Msg := { id := id, qr := qr, opcode := opc, rd := rd, cd := cd,
+                       question := (List.range nq).map (fun i => ⟨if i = 0 then name else 120 :: name, qt, qc⟩),
+                       answer := (List.range na).map (fun i => RR.rr name 1 1 i),
+                       ns := (List.range nn).map (fun i => RR.rr name 2 1 i), extra := ex.map (withHdr ver ext) }
+      match reply en (fun m _ => m) false q with
+      | none => "drop"
+      | some r => if packable r then Driver.Handler.showReply r else "drop"
+    | _, _, _, _, _, _, _, _, _, _, _, _, _, _, _, _ => "bad-op"
+  | _ => "bad-op"
+
 def handle : List String → String
+  | "replyx" :: rest => replyx rest
   | ["fork", mode, q, w, ds] =>
     match mode? mode, tx? (q ++ "/none"), (if w == "-" then some none else (branch? w).map some),
           (if ds == "-" then some [] else (ds.splitOn ";").mapM branch?) with
